@@ -218,6 +218,19 @@ func genAll(ctx *vh.Ctx) {
 			}
 		}
 	}
+	// strings whose non-ASCII runes all have a printable low byte, under every string-type parameter, at top level and
+	// as a struct field (found by an independently seeded change: a rune judged by byte(r) alone)
+	strTy := &gen.Ty{K: "str"}
+	for _, w := range []string{"Ale\u0161", "\u0141ukasz", "\u0441\u0430", "\u4e2d", "\u0141", "a\u0161", "\u0131\u0132 1", "\U0001F641", "\u007f", "\u0080", "\u00ff", "\u0100"} {
+		for _, ex := range []string{"", "ia5", "printable", "numeric", "utf8", "tag:1,explicit", "tag:1,utf8", "optional"} {
+			runCase(ctx, mkInput(strTy, ex, reflect.ValueOf(w)), "lowbyte-top")
+			st := &gen.Ty{K: "struct", Fields: []gen.Field{{Tag: ex, T: strTy}, {Tag: "", T: &gen.Ty{K: "int"}}}}
+			sv := reflect.New(gen.GoType(st)).Elem()
+			sv.Field(0).SetString(w)
+			sv.Field(1).SetInt(int64(c.Intn(300)))
+			runCase(ctx, mkInput(st, "", sv), "lowbyte-field")
+		}
+	}
 	ctx.Note("grid: 13 primitive kinds x 9 tag forms x 3 optional forms x string/time type parameters, as a struct field and at top level")
 }
 
